@@ -41,6 +41,15 @@ def corpus(S, T):
     tricky = lambda n: fr("D", n, [(11, "a=b"), (58, "10=123 9=12 35=D"), (55, "Z")])
     longf = lambda n: fr("D", n, [(11, "L"), (58, "x" * 180), (55, "Q")])
     u8 = lambda n: fr("U8", n, [(5001, "8"), (5002, "=")])
+
+    def padded(t, n, body=()):
+        # a counterparty that renders int fields with a fixed width: BodyLength and MsgSeqNum zero-padded (legal FIX ints)
+        plain = refs.frame(t, "%06d" % n, T, S, body)
+        bl = plain.split(b"\x01")[1][2:]
+        return refs.frame(t, "%06d" % n, T, S, body, body_length=b"%06d" % int(bl))
+
+    # reset-mode SequenceReset to the number that is expected anyway (a no-op for the counter), then traffic
+    rs_noop = lambda n: fr("4", n, [(36, n)])
     return {
         "logon_only": [logon],
         "logon_app": [logon, app],
@@ -48,6 +57,8 @@ def corpus(S, T):
         "logon_grp_tr": [logon, grp(2), tr(3)],
         "logon_long": [logon, longf(2), u8(3)],
         "logon_4app": [logon, app, u8(3), grp(4), hb(5)],
+        "logon_padded": [logon, padded("D", 2, [(11, "pad1"), (55, "MSFT")]), padded("0", 3), padded("D", 4, [(11, "pad2"), (55, "Q")])],
+        "logon_rs_noop": [logon, app, rs_noop(3), fr("D", 3, [(11, "after1"), (55, "A")]), fr("D", 4, [(11, "after2"), (55, "B")])],
     }
 
 
@@ -130,10 +141,17 @@ class Case:
             w.close()
 
     def expected(self):
+        if self.name in DIFFERENTIAL:
+            # streams on which the session layer itself reports an error (e.g. a journal conflict): the reference is what
+            # the endpoint does when every frame arrives in a read of its own - every other split must give the same
+            if getattr(self, "_exp", None) is None:
+                self._exp = self.run([e for (_s, e, *_r) in self.offs[:-1]])
+            return self._exp
         return (tuple(self.expected_app), "ACTIVE", len(self.frames) + 1, True, 0)
 
 
 CASES = {}
+DIFFERENTIAL = {"logon_rs_noop"}
 
 
 def _work(item):
@@ -170,6 +188,8 @@ def build_cases(seed, quick=False):
             if gname != "none" and len(frames) < 2:
                 continue
             if quick and gname == "long_noise" and name not in ("logon_app", "logon_grp_tr"):
+                continue
+            if quick and gname != "none" and name in ("logon_padded", "logon_rs_noop"):
                 continue
             cs[(name, gname)] = Case(S, T, name, frames, gname, g)
     return cs
